@@ -626,7 +626,7 @@ theorem runAuto_run (o : RmOrder) : ∀ (fuel : Nat) (ft : List Fault) (c : Cfg)
           · exact ⟨[], rfl⟩
         · split
           · rename_i c' hs
-            obtain ⟨acts, ha⟩ := ih (ft.filter fun f => !(f.k == log.length && f.kind == .skip)) c' log
+            obtain ⟨acts, ha⟩ := ih (ft.erase ⟨log.length, .skip⟩) c' log
             exact ⟨failOf a :: acts, by simp only [run, hs]; exact ha⟩
           · exact ⟨[], rfl⟩
         · split
